@@ -117,6 +117,10 @@ theorem next_up_generated (r : ℚ → ℚ) (q : QFmt) (hq : q.p = 24) (hr : IsR
     simp only [Bool.false_eq_true, if_false, this, if_true]
     rw [hcq, next_down_neg hr hk1 hk2 he]
 
+/-- every regenerated C11 program (3Sum, 4Sum, mul_add, dot2, all FMA variants, next, is_power_of_two)
+passes the kind check of the refinement theorem -/
+theorem refinement_scope : ∀ e ∈ FAVerif.Gen.C11.all, (kindsOf e.2.nodes []).isSome = true := by decide +kernel
+
 /-- kinds of the nodes of `next`: node 2 (the sign test) is boolean, the rest are floats -/
 def nextKinds : List Bool := [false, false, true, false, false, false, false]
 
